@@ -111,6 +111,7 @@ public:
       }
 
       assert(isConsistent());
+      return *this;
    }
 
    /// Copy constructor.
